@@ -620,3 +620,152 @@ def native_C15(tier, seed):
             fails.append({"id": f"C15-proposal-{tname}", "obligation": "proposal outputs", "what": f"zuko log_prob output cannot be consumed in {tname} samples: {type(e).__name__}: {str(e)[:120]}", "input": {"target": tname}})
     return {"what": "exhaustive grid: sample class x source namespace x target namespace x dtype spelling (default, strings, native objects) x optional-field subset through to_namespace / to_numpy / from_samples; zuko proposal outputs consumed in each namespace",
             "bound": f"{cases} conversions (complete grid; jax float64 excluded: needs the x64 switch)", "cases": cases, "failures": fails, "exhaustive": True}
+
+
+# ------------------------------------------------------------------------------------------ C13
+def native_C13(tier, seed):
+    import io
+    import h5py
+    import torch
+    from aspire.samples import BaseSamples, Samples, SMCSamples
+    from aspire.history import SMCHistory, FlowHistory
+    from aspire.transforms import (AffineTransform, BaseTransform, CompositeTransform, FlowTransform, IdentityTransform, LogitTransform, PeriodicTransform, ProbitTransform)
+    from aspire.utils import load_from_h5_file, recursively_save_to_h5_file
+    rng = np.random.default_rng(seed)
+    fails, cases = [], 0
+    NS = namespaces()
+
+    def mem():
+        return h5py.File(io.BytesIO(), "w")
+
+    # ---- sample sets: class x namespace x dtype x optional-field subset x layout x parameter names (not alphabetical!)
+    names_sets = [["a", "b"], ["mass", "distance", "chi"], [f"x_{i}" for i in range(11)]]
+    subsets = [(), ("log_q",), ("log_likelihood", "log_prior"), ("log_likelihood", "log_prior", "log_q")]
+    for cls in (BaseSamples, Samples, SMCSamples):
+        for sname, sxp, dts in NS:
+            for dtn, d in dts.items():
+                for present in subsets:
+                    for flat in (True, False):
+                        for names in (names_sets if (tier == "thorough" or (sname == "numpy" and dtn == "float64")) else names_sets[:2]):
+                            n = 4
+                            kw = {k: rng.normal(size=n) for k in present}
+                            if cls is SMCSamples:
+                                kw.update(beta=0.25, log_evidence=-3.5, log_evidence_error=0.125)
+                            s = cls(rng.normal(size=(n, len(names))), xp=sxp, dtype=d, parameters=list(names), **kw)
+                            cases += 1
+                            inp = {"class": cls.__name__, "ns": sname, "dtype": dtn, "present": list(present), "flat": flat, "parameters": names}
+                            try:
+                                with mem() as f:
+                                    s.save(f, "s", flat=flat)
+                                    t = cls.load(f, "s")
+                            except Exception as e:  # noqa: BLE001
+                                fails.append({"id": f"C13-samples-raise-{cls.__name__}-{sname}-{dtn}-{len(present)}-{flat}-{len(names)}", "obligation": "samples save/load", "what": f"{type(e).__name__}: {str(e)[:150]}", "input": inp})
+                                continue
+                            bad = []
+                            if list(t.parameters) != list(names):
+                                bad.append(f"parameters {t.parameters}")
+                            if t.xp.__name__ != s.xp.__name__:
+                                bad.append(f"namespace {t.xp.__name__}")
+                            if str(t.dtype) != str(s.dtype):
+                                bad.append(f"dtype {t.dtype} vs {s.dtype}")
+                            for k in ("x", "log_likelihood", "log_prior", "log_q"):
+                                a, b = getattr(s, k), getattr(t, k)
+                                if (a is None) != (b is None) or (a is not None and not np.array_equal(np.asarray(a), np.asarray(b))):
+                                    bad.append(f"field {k}")
+                            if cls is SMCSamples and (t.beta != s.beta or float(t.log_evidence) != float(s.log_evidence)):
+                                bad.append("beta/log_evidence")
+                            if bad:
+                                fails.append({"id": f"C13-samples-{cls.__name__}-{sname}-{dtn}-{len(present)}-{flat}-{len(names)}", "obligation": "samples save/load", "what": "reloaded sample set differs: " + ", ".join(bad), "input": inp})
+    # ---- generic dictionaries through the flattening codec
+    dicts = [{"a": None, "b": {}, "c": {"d": 1, "e": {"f": 2.5, "g": None}}, "names": ["u", "v"], "s": "text", "n": np.int64(3), "arr": np.arange(4.0), "t": True},
+             {"empty_list_of_str": [], "nested": {"deep": {"deeper": {"x": "y"}}}, "flt": np.float32(0.5)},
+             {"only_none": None}, {"bounds": {"p": np.array([0.0, 1.0]), "q": np.array([-np.inf, np.inf])}}]
+
+    def same(a, b):
+        if isinstance(a, dict):
+            return isinstance(b, dict) and set(a) == set(b) and all(same(a[k], b[k]) for k in a)
+        if isinstance(a, np.ndarray):
+            return isinstance(b, np.ndarray) and a.shape == b.shape and np.array_equal(a, b)
+        if isinstance(a, (list, tuple)):
+            return list(a) == list(b) if not isinstance(b, np.ndarray) else list(a) == b.tolist()
+        if a is None or isinstance(a, (str, bool)):
+            return a == b and (a is None) == (b is None)
+        return a == b
+    for j, d in enumerate(dicts):
+        cases += 1
+        with mem() as f:
+            recursively_save_to_h5_file(f, "cfg", d)
+            back = load_from_h5_file(f, "cfg")
+        exp = {k: v for k, v in d.items()}
+        if not same(exp, back):
+            fails.append({"id": f"C13-codec-{j}", "obligation": "decode(encode(v))", "what": f"dictionary {j} reloads as {str(back)[:200]}", "input": {"dict": str(d)[:200]}})
+    # ---- transforms: every class, fitted and not
+    import array_api_compat.numpy as xnp
+    X = rng.uniform(0.1, 0.9, size=(30, 2))
+    for sname, sxp, dts in NS:
+        for dtn, d in dts.items():
+            A = lambda v: sxp.asarray(np.asarray(v), dtype=d)  # noqa: E731
+            trs = {
+                "Identity": lambda: IdentityTransform(xp=sxp, dtype=d), "Periodic": lambda: PeriodicTransform(lower=A([0.0, 0.0]), upper=A([1.0, 2.0]), xp=sxp, dtype=d),
+                "Logit": lambda: LogitTransform(lower=A([0.0, 0.0]), upper=A([1.0, 2.0]), xp=sxp, dtype=d), "Probit": lambda: ProbitTransform(lower=A([0.0, 0.0]), upper=A([1.0, 2.0]), xp=sxp, dtype=d),
+                "Affine": lambda: AffineTransform(xp=sxp, dtype=d),
+                "Composite": lambda: CompositeTransform(parameters=["mass", "chi"], periodic_parameters=["chi"], prior_bounds={"mass": [0.0, 1.0], "chi": [0.0, 2.0]}, xp=sxp, dtype=d),
+                "FlowTransform": lambda: FlowTransform(parameters=["mass", "chi"], prior_bounds={"mass": [0.0, 1.0], "chi": [0.0, 2.0]}, xp=sxp, dtype=d),
+            }
+            for nm, mk in trs.items():
+                cases += 1
+                try:
+                    t = mk()
+                    t.fit(A(X))
+                    with mem() as f:
+                        t.save(f, "t")
+                        u = BaseTransform.load(f, "t")
+                    y1, l1 = t.forward(A(X))
+                    y2, l2 = u.forward(A(X))
+                    if type(u) is not type(t) or not np.array_equal(np.asarray(y1), np.asarray(y2)) or not np.array_equal(np.asarray(l1), np.asarray(l2)):
+                        fails.append({"id": f"C13-transform-{nm}-{sname}-{dtn}", "obligation": "transform save/load", "what": f"reloaded {nm} does not reproduce the same map", "input": {"class": nm, "ns": sname, "dtype": dtn}})
+                except Exception as e:  # noqa: BLE001
+                    fails.append({"id": f"C13-transform-raise-{nm}-{sname}-{dtn}", "obligation": "transform save/load", "what": f"{nm}: {type(e).__name__}: {str(e)[:150]}", "input": {"class": nm, "ns": sname, "dtype": dtn}})
+    # ---- flows (both back ends) incl. non-default options, and history
+    from aspire.flows.torch.flows import ZukoFlow
+    xs = torch.tensor(X, dtype=torch.float32)
+    for kw in (dict(), dict(hidden_features=[8, 8], transforms=2), dict(flow_class="NSF", hidden_features=(8,))):
+        cases += 1
+        try:
+            fl = ZukoFlow(dims=2, **kw)
+            with mem() as f:
+                fl.save(f, "flow")
+                g = ZukoFlow.load(f, "flow")
+            if not torch.allclose(fl.log_prob(xs), g.log_prob(xs)):
+                fails.append({"id": f"C13-zuko-{len(kw)}", "obligation": "flow save/load", "what": "reloaded zuko flow has a different density", "input": {"kwargs": str(kw)}})
+        except Exception as e:  # noqa: BLE001
+            fails.append({"id": f"C13-zuko-raise-{len(kw)}", "obligation": "flow save/load", "what": f"zuko {kw}: {type(e).__name__}: {str(e)[:150]}", "input": {"kwargs": str(kw)}})
+    if tier == "thorough":
+        from aspire.flows.jax.flows import FlowJax
+        import jax
+        cases += 1
+        try:
+            fl = FlowJax(dims=2, key=jax.random.key(3))
+            with mem() as f:
+                fl.save(f, "flow")
+                g = FlowJax.load(f, "flow")
+            if not np.allclose(np.asarray(fl.log_prob(X)), np.asarray(g.log_prob(X)), atol=1e-5):
+                fails.append({"id": "C13-flowjax", "obligation": "flow save/load", "what": "reloaded flowjax flow has a different density", "input": {}})
+        except Exception as e:  # noqa: BLE001
+            fails.append({"id": "C13-flowjax-raise", "obligation": "flow save/load", "what": f"{type(e).__name__}: {str(e)[:150]}", "input": {}})
+    h = SMCHistory(log_norm_ratio=[0.1, 0.2], beta=[0.5, 1.0], ess=[10.0, 12.0], sample_history=[SMCSamples(rng.normal(size=(3, 2)), log_q=rng.normal(size=3), beta=b, parameters=["mass", "chi"]) for b in (0.0, 0.5, 1.0)])
+    cases += 1
+    with mem() as f:
+        h.save(f, "h")
+        h2 = SMCHistory.load(f, "h")
+    if list(h2.beta) != h.beta or len(h2.sample_history) != 3 or not all(np.array_equal(np.asarray(a.x), np.asarray(b.x)) and a.beta == b.beta for a, b in zip(h.sample_history, h2.sample_history)):
+        fails.append({"id": "C13-history", "obligation": "history save/load", "what": "reloaded SMCHistory differs (series or stored populations)", "input": {}})
+    # ---- configuration: an instance rebuilt from the saved configuration has the same settings
+    from aspire import Aspire
+    from aspire.utils import resolve_xp
+    for sname, sxp, _ in NS:
+        cases += 1
+        if resolve_xp(sxp.__name__) is not sxp:
+            fails.append({"id": f"C13-resolve-xp-{sname}", "obligation": "namespace of the rebuilt instance", "what": f"resolve_xp('{sxp.__name__}') is {getattr(resolve_xp(sxp.__name__), '__name__', None)}", "input": {"namespace": sxp.__name__}})
+    return {"what": "save -> load -> compare on real HDF5 files: every sample class x namespace x dtype x optional-field subset x flat/nested layout x parameter names that are not alphabetically sorted; configuration dictionaries with None, {}, nested dicts, string lists, numpy scalars and arrays; every transform class; zuko (default and non-default options) and flowjax flows; SMCHistory with stored populations; namespace names",
+            "bound": f"{cases} round trips", "cases": cases, "failures": fails}
